@@ -70,7 +70,42 @@ def gen_c03(rng, i):
     return g.history("c03-%d" % i, univ)
 
 
+def gen_c07_cancel(rng, i):
+    """A bottom range whose tables cancel out completely (refs created, then deleted; optionally a log entry written, then
+    deleted), with tables above it: the compaction of exactly that range has an EMPTY result (tombstones may be dropped at the
+    bottom), and nothing above the range may be disturbed."""
+    names = rng.sample(S.NAMES_PLAIN, rng.randint(4, 8))
+    k = rng.randint(1, 2)
+    low, high = names[:k], names[k:]
+    g = S.HistGen(rng, high, logs=rng.random() < 0.5)
+    g.steps.append({"op": "open", "h": 1})
+    nlow = rng.choice([2, 2, 3])
+    withlog = rng.random() < 0.4
+    for t in range(nlow):
+        last = t == nlow - 1
+        refs = [{"n": n, "v": ["d", "", ""] if last else S.rand_val(rng, low)} for n in sorted(low)]
+        logs = []
+        if withlog and t == 0:
+            logs = [{"n": low[0], "i": 0, "del": False, "old": "A", "new": "B", "user": "u", "email": "u@e", "time": 5, "tz": 0, "msg": "commit: x"}]
+        if withlog and last:
+            logs = [{"n": low[0], "i": 1, "del": True}]
+        g.add(part={"refs": refs, "logs": logs})
+    for t in range(rng.randint(1, 4)):
+        g.add()
+    g.observe(tag="C07", raw=False, after="add")
+    g.steps.append({"op": "compact", "h": 1, "first": 0, "last": nlow - 1})
+    g.ntab -= nlow        # the result is empty: the range disappears from the list
+    g.observe(tag="C07", raw=rng.random() < 0.5, after="compact")
+    g.add()
+    g.observe(tag="C07", raw=False, after="add")
+    g.steps.append({"op": "compact", "h": 1, "all": True})
+    g.observe(tag="C07", raw=False, after="compact")
+    return g.history("c07-%d" % i)
+
+
 def gen_c07(rng, i):
+    if i % 9 == 4:
+        return gen_c07_cancel(rng, i)
     g = S.HistGen(rng, rng.sample(S.NAMES_PLAIN, rng.randint(2, 9)))
     auto = rng.random() < 0.3
     g.steps.append({"op": "open", "h": 1})
